@@ -575,7 +575,14 @@ class AsyncFIXConnection:
             return "MsgSeqNum(34) tag is missing"
 
         try:
-            msg_seq_num = int(msg[FTag.MsgSeqNum])
+            msg_seq_num = msg[FTag.MsgSeqNum]
+            if not (msg_seq_num.isascii() and msg_seq_num.isdigit()):
+                # int() also reads non ASCII digits, signs, blanks
+                raise ValueError(msg_seq_num)
+            if len(msg_seq_num) > 18:
+                # does not fit any counter (journal keeps 64 bit integers)
+                raise ValueError(msg_seq_num)
+            msg_seq_num = int(msg_seq_num)
         except (FIXMessageError, ValueError):
             # not a number or repeated tag
             return "MsgSeqNum(34) tag is invalid"
@@ -823,7 +830,7 @@ class AsyncFIXConnection:
         # NewSeqNo must be usable before anything is changed, otherwise the counter
         #   would be left at the MsgSeqNum of a reset which was never applied
         new_seq_no = int(seqreset_msg[FTag.NewSeqNo])
-        if new_seq_no < 1:
+        if new_seq_no < 1 or new_seq_no >= 2**63:
             self.log.warning(f"Ignoring SEQUENCERESET, bad NewSeqNo: {seqreset_msg}")
             return False
 
